@@ -241,16 +241,19 @@ Definition check_case
             ++ (match stale with Some o => [(1, o)] | None => [] end) in
   let new := concat (writes_of ops) in
   (* the code issues exactly the protocol the theorem is about (or nothing at all) *)
-  (match fault, ops with
-   | None, [] => true
-   | None, _ => list_beq op_eqb ops (save_ops 1 0 (writes_of ops))
-   (* fault = Some f: call number f was made to fail *)
-   | Some f, _ => list_beq op_eqb ops (fault_ops 1 d0 f (save_ops 1 0 (writes_of ops)))
-   end)
-  (* every crash state of the recorded op list keeps the storage file old or new *)
-  && forallb (good_target old new) (crash_states ops (init d0))
+  if negb (match fault, ops with
+           | None, [] => true
+           | None, _ => list_beq op_eqb ops (save_ops 1 0 (writes_of ops))
+           (* fault = Some f: call number f was made to fail *)
+           | Some f, _ => list_beq op_eqb ops (fault_ops 1 d0 f (save_ops 1 0 (writes_of ops)))
+           end) then false else
+  (* every crash state of the recorded op list keeps the storage file old or new (evaluated for
+     short op lists; for any number of writes it is what C15_tmp_rename_atomic /
+     C15_failed_save_atomic state about exactly this op list) *)
+  (if Nat.leb (List.length ops) 12 then forallb (good_target old new) (crash_states ops (init d0)) else true)
+  &&
   (* the model's crash states are the directory states the real run left behind *)
-  && forallb (fun o : nat * nat * desc * desc =>
+  forallb (fun o : nat * nat * desc * desc =>
         let '(k, j, dt, dtmp) := o in
         match state_after k ops (init d0) with
         | Some s =>
